@@ -14,10 +14,20 @@
      top level of the body, with a body of assignments, under decidable side conditions on the sets the generated
      analysis computes for the loop (class s3_pre / loop_ok; two of the conditions exclude exactly the programs that
      hit the liveness defects of the code: loop bound not live, live-out variable not live-in).
-   Not proved: the rest of stage S3 (while, break, loops nested in control flow, if/tuple statements inside a loop
-   body, literal loop bounds), stage S4 (attribute parameters), and S2 programs in which a variable holding a Python
-   scalar is merged by an if (there the graph loses the CastLike promotion the Python reading performs): for those
-   the evidence is the skeleton correspondence and the four-way direct oracle of harness/c01.py only.
+   * stage S3, complete (C01_graph_eq_python_nested_partial): `for` and `while` loops, each possibly ending in
+     `if c: break` (the cond_out encoding: Identity / the loop condition / Not(break) / And(condition, Not(break))),
+     and if / for / while nested in one another to ANY depth (up to the converter model's own nesting bound
+     stmt_depth_fuel), loop bodies containing assignments, tuple assignments, if/else and loops; by induction on the
+     nesting fuel with one simulation lemma per construct (class pre_ok: the same decidable side conditions as above at
+     every loop, plus for `while`: the condition variable is live and not a module constant, the body does not read a
+     variable called infinite_loop).  Kernel laws assumed as hypotheses: Identity, truth (of_bool b) = Some b, Not
+     negates a condition, And is the conjunction of two conditions; the graph's limit on unbounded loops is at least the
+     source's; for `while` + break (flag wb) every value can be read as a condition (Python does not look at the new
+     loop condition when the break is taken, And does).
+   Not proved: stage S4 (attribute parameters), and programs in which a variable holding a Python
+     scalar is merged by an if or carried by a loop (there the graph loses the CastLike promotion the Python reading
+     performs): for those the evidence is the skeleton correspondence and the four-way direct oracle of
+     harness/c01.py only.
 
    About the generated analysis (Gen/Analysis.v): assigned_vars is sound for every statement form; liveness and
    exposed_uses are sound for loop-free code (..._loopfree_partial) and refuted for `for` loops
@@ -27,7 +37,8 @@ From Coq Require Import List String ZArith Bool.
 Require Import OV.Graph.Syntax OV.Graph.Sem OV.Script.Syntax OV.Script.Sets OV.Gen.Analysis OV.Gen.ScriptTables
                OV.Script.Translate OV.Script.PySem OV.Script.TranslateProofs OV.Script.TablesProofs OV.Script.TranslateExamples
                OV.Script.AnalysisProofs OV.Script.LivenessProofs OV.Script.TranslateIfProofs OV.Script.TranslateIfExamples OV.Script.ExposedProofs
-               OV.Script.TranslateForDefs OV.Script.TranslateForProofs OV.Script.TranslateForExamples.
+               OV.Script.TranslateForDefs OV.Script.TranslateForProofs OV.Script.TranslateForExamples
+               OV.Script.TranslateNestDefs OV.Script.TranslateNestProofs OV.Script.TranslateNestExamples.
 Import ListNotations.
 Local Open Scope string_scope.
 
@@ -40,11 +51,19 @@ Theorem C01_gen_unique_fresh : forall cand st r st',
 Proof. exact gen_unique_fresh. Qed.
 Print Assumptions C01_gen_unique_fresh.
 
-(* the full statement: whatever the kernels mean (Identity being the identity), for every listing order of the
-   Python sets (`orders`), a translated program evaluates as a graph to what the source evaluates to as Python *)
+(* the full statement: whatever the kernels mean (Identity being the identity, conditions being read back as they
+   were written, Not / And being negation / conjunction of conditions, the trip count of Constant(k) being k), the graph allowing at least as many iterations
+   of an unbounded loop as the source reading, for every listing order of the Python sets (`orders`), a translated
+   program evaluates as a graph to what the source evaluates to as Python *)
 Definition C01_full : Prop :=
   forall (V : Type) sem truth trip of_nat of_bool limit while_limit globals,
     (forall v : V, sem "" "Identity" [] [Some v] = Some [v]) ->
+    (forall b, truth (of_bool b) = Some b) ->
+    (forall v b, truth v = Some b -> exists r, sem "" "Not" [] [Some v] = Some [r] /\ truth r = Some (negb b)) ->
+    (forall a b x y, truth a = Some x -> truth b = Some y ->
+       exists r, sem "" "And" [] [Some a; Some b] = Some [r] /\ truth r = Some (x && y)) ->
+    while_limit <= limit ->
+    (forall z c, const_val V sem (LInt z) = Some c -> trip c = Some (Z.to_nat z)) ->
     forall cic afuel orders f g xs vs fuel2,
       f_aparams f = [] -> NoDup (f_tparams f) ->
       translate false globals cic afuel orders f = Some g ->
@@ -151,6 +170,69 @@ Theorem C01_forloop_nonvacuous :
     exfor_script [2%Z; 3%Z; 3%Z; 0%Z] = Some [70%Z; 3%Z] /\ exfor_graph g [2%Z; 3%Z; 3%Z; 0%Z] = Some [70%Z; 3%Z].
 Proof. exact exfor_hyps. Qed.
 Print Assumptions C01_forloop_nonvacuous.
+
+(* S3, complete: `for` / `while` loops, each possibly ending in `if c: break`, and if / for / while nested in one
+   another to any depth.  `pre_ok globals cic afuel wb 11 pre [SReturn es] []` is the class (11 = stmt_depth_fuel - 1:
+   the nesting bound of the converter model itself): at every statement the check stmt_ok -- assignments and if
+   conditions as in S2; every loop satisfies the side conditions loop_side on the sets the generated analysis computes
+   for it (those of loop_ok above; for `while` also: the condition variable is live before the loop, is not a
+   module-level constant, and the body does not read a variable called infinite_loop), and its body is a list of
+   class statements (nested blocks checked recursively) optionally ended by `if cn: break` with an empty else.
+   A `for` bound is a tensor-valued expression or an integer literal (`range(3)`).
+   Kernel laws (hypotheses, for arbitrary kernels otherwise): Identity, truth (of_bool b) = Some b, Not, And, the trip
+   count read from Constant(k) is k; while_limit <= limit; when wb = true (a `while` with a trailing break is in the class) every value is readable as a
+   condition.  The graph is evaluated with fuel above the converter's nesting bound. *)
+Theorem C01_graph_eq_python_nested_partial :
+  forall (V : Type) sem truth trip of_nat of_bool limit while_limit globals,
+    (forall v : V, sem "" "Identity" [] [Some v] = Some [v]) ->
+    (forall b, truth (of_bool b) = Some b) ->
+    (forall v b, truth v = Some b -> exists r, sem "" "Not" [] [Some v] = Some [r] /\ truth r = Some (negb b)) ->
+    (forall a b x y, truth a = Some x -> truth b = Some y ->
+       exists r, sem "" "And" [] [Some a; Some b] = Some [r] /\ truth r = Some (x && y)) ->
+    while_limit <= limit ->
+    (forall z c, const_val V sem (LInt z) = Some c -> trip c = Some (Z.to_nat z)) ->
+    forall wb cic afuel orders f g xs vs fuel2 k pre es,
+      (wb = true -> forall v, exists b, truth v = Some b) ->
+      (forall c b pe v, cic c = Some b -> eval_expr V sem globals pe c = Some v -> ptruth V truth v = Some b) ->
+      f_body f = (pre ++ [SReturn es])%list -> pre_ok globals cic afuel wb 11 pre [SReturn es] [] = true -> forallb expr_ok es = true ->
+      f_aparams f = [] -> NoDup (f_tparams f) ->
+      translate false globals cic afuel orders f = Some g ->
+      eval_script V sem truth trip of_nat while_limit globals (S fuel2) f xs = Some vs ->
+      stmt_depth_fuel <= k ->
+      eval_graph V sem truth trip of_nat of_bool limit (S k) [] g xs = Some vs.
+Proof. exact translate_nested_correct. Qed.
+Print Assumptions C01_graph_eq_python_nested_partial.
+
+(* the kernel laws are satisfiable (a semantics over Z with Less / Not / And) ... *)
+Theorem C01_nested_laws_satisfiable :
+  (forall v, nest_sem "" "Identity" [] [Some v] = Some [v]) /\
+  (forall b, exif_truth (exfor_of_bool b) = Some b) /\
+  (forall v b, exif_truth v = Some b -> exists r, nest_sem "" "Not" [] [Some v] = Some [r] /\ exif_truth r = Some (negb b)) /\
+  (forall a b x y, exif_truth a = Some x -> exif_truth b = Some y ->
+     exists r, nest_sem "" "And" [] [Some a; Some b] = Some [r] /\ exif_truth r = Some (x && y)) /\
+  (forall v, exists b, exif_truth v = Some b) /\
+  (forall z c, const_val Z nest_sem (LInt z) = Some c -> exif_trip c = Some (Z.to_nat z)).
+Proof. exact nest_laws. Qed.
+Print Assumptions C01_nested_laws_satisfiable.
+
+(* ... and so is the class, on a non-trivial instance: a `for` loop ending in a conditional break whose body holds an
+   if/else whose then branch holds a `while` loop ending in a conditional break and whose else branch holds a `for` over a
+   literal bound (the while loop carries two variables
+   and reads one variable of the enclosing loop body and one parameter); source and (as the theorem says) graph agree
+   on inputs taking: several while iterations ended by the break; a zero-trip `for`; the `for` break in the first
+   iteration; the else branch *)
+Theorem C01_nested_nonvacuous :
+  exists g pre es,
+    f_body exnest_f = (pre ++ [SReturn es])%list /\ pre_ok [] (fun _ => None) 6 true 11 pre [SReturn es] [] = true /\
+    forallb expr_ok es = true /\ f_aparams exnest_f = [] /\ NoDup (f_tparams exnest_f) /\
+    translate false [] (fun _ => None) 6 [] exnest_f = Some g /\
+    count_op "Loop" (g_nodes g) = 1 /\ depth_graph g = 8 /\
+    exnest_script [1; 4; 30]%Z = Some [73; 62]%Z /\ exnest_graph g [1; 4; 30]%Z = Some [73; 62]%Z /\
+    exnest_script [1; 0; 30]%Z = Some [2; 1]%Z /\ exnest_graph g [1; 0; 30]%Z = Some [2; 1]%Z /\
+    exnest_script [1; 4; 3]%Z = Some [16; 11]%Z /\ exnest_graph g [1; 4; 3]%Z = Some [16; 11]%Z /\
+    exnest_script [2; 5; 12]%Z = Some [88; 75]%Z /\ exnest_graph g [2; 5; 12]%Z = Some [88; 75]%Z.
+Proof. exact exnest_hyps. Qed.
+Print Assumptions C01_nested_nonvacuous.
 
 (* the converter's operator table and eager mode's Tensor methods (both regenerated from the source) name the
    same ONNX operator for every Python operator except `%` (and except and/or/not, which Python cannot overload) *)
